@@ -19,7 +19,8 @@ package transaction
 //@ # ASSUMED: decoding is a function of the bytes and touches no state; the sender is a function of the transaction
 //@ func (*Executor).DecodeFromBytes
 //@   trusted
-//@   ensures result1 == nil ==> result0 != nil && result0 == decodedTx(e, tx) && result0.decodedData != nil
+//@   ensures result1 == nil ==> result0 != nil && result0 == decodedTx(e, buf) && result0.decodedData != nil
+//@   ensures result1 == nil && result0.SignatureType == SigTypeMulti ==> result0.multisig != nil && forall i int :: 0 <= i && i < len(result0.multisig.Signatures) ==> result0.multisig.Signatures[i].R != nil && result0.multisig.Signatures[i].S != nil && result0.multisig.Signatures[i].V != nil && result0.multisig.Signatures[i].V.val >= 0
 //@   modifies nothing
 //@ func (*Transaction).Sender
 //@   trusted
@@ -28,17 +29,29 @@ package transaction
 //@ func (*Transaction).Hash
 //@   trusted
 //@   modifies nothing
+//@ ghost commissionCoinOf(tx *Transaction) types.CoinID
+//@ func (*Transaction).CommissionCoin
+//@   trusted
+//@   ensures result == commissionCoinOf(tx)
+//@   modifies nothing
+//@ func (*Transaction).Gas
+//@   trusted
+//@   modifies nothing
 
 //@ # ASSUMED for now (proved separately where listed under C27/C15): pure computations over the read-only state
 //@ func CheckSwap
 //@   trusted
+//@   ensures resp != nil ==> resp.Code != 0
 //@   modifies nothing
 //@ func CalculateCommission
 //@   trusted
 //@   ensures errResp == nil ==> commission != nil && commission.val >= 0
+//@   ensures errResp != nil ==> errResp.Code != 0
 //@   modifies nothing
 //@ func CalculateSaleReturnAndCheck
 //@   trusted
+//@   ensures result1 != nil ==> result1.Code != 0
+//@   ensures result1 == nil ==> result0 != nil && result0.val >= 0
 //@   modifies nothing
 
 //@ # ASSUMED: the per-type table accessors are pure
@@ -67,7 +80,6 @@ package transaction
 //@   ensures rejected: result.Code != 0 ==> bal == old(bal) && nonce == old(nonce) && ledgerDelta == old(ledgerDelta) && ledgerVolume == old(ledgerVolume) && coinVolume == old(coinVolume) && coinReserve == old(coinReserve) && swapAbs == old(swapAbs) && otherState == old(otherState) && arg2.val == old(arg2.val)
 //@   ensures checkonly: typeis(arg1, "*state.CheckState") ==> bal == old(bal) && nonce == old(nonce) && ledgerDelta == old(ledgerDelta) && ledgerVolume == old(ledgerVolume) && coinVolume == old(coinVolume) && coinReserve == old(coinReserve) && swapAbs == old(swapAbs) && otherState == old(otherState) && arg2.val == old(arg2.val)
 //@   ensures accepted: result.Code == 0 && typeis(arg1, "*state.State") ==> nonce(accs, senderOf(arg0)) == arg0.Nonce
-//@   ensures othernonces: forall a types.Address :: a != senderOf(arg0) ==> nonce(accs, a) == old(nonce(accs, a))
 //@   modifies bal, nonce, ledgerDelta, ledgerVolume, coinVolume, coinReserve, swapAbs, otherState, arg2.val, accountsCache, coinsCache, commissionCache
 
 //@ func (*ExecutorV3).RunTx
@@ -80,10 +92,15 @@ package transaction
 //@   requires typeis(context, "*state.CheckState") || typeis(context, "*state.State")
 //@   requires typeis(context, "*state.CheckState") ==> as(context, "*state.CheckState") != nil && as(context, "*state.CheckState").state != nil && as(context, "*state.CheckState").state.Accounts != nil && as(context, "*state.CheckState").state.Coins != nil && as(context, "*state.CheckState").state.Commission != nil && as(context, "*state.CheckState").state.Accounts.bus != nil
 //@   requires typeis(context, "*state.State") ==> as(context, "*state.State") != nil && as(context, "*state.State").Accounts != nil && as(context, "*state.State").Coins != nil && as(context, "*state.State").Commission != nil && as(context, "*state.State").Accounts.bus != nil && as(context, "*state.State").Coins.bus != nil
+//@   requires nowrap: nonce(accs, snd) < 18446744073709551615
 //@   ensures chain: result.Code == 0 ==> tx.ChainID == types.CurrentChainID
 //@   ensures inorder: result.Code == 0 ==> tx.Nonce == old(nonce(accs, snd)) + 1
 //@   ensures advanced: result.Code == 0 && deliver ==> nonce(accs, snd) == tx.Nonce
 //@   ensures checkmode: !deliver ==> bal == old(bal) && nonce == old(nonce) && coinVolume == old(coinVolume) && coinReserve == old(coinReserve) && swapAbs == old(swapAbs) && otherState == old(otherState) && rewardPool.val == old(rewardPool.val)
-//@   ensures failednonce: result.Code != 0 ==> nonce == old(nonce) && otherState == old(otherState)
-//@   ensures failedbalances: result.Code != 0 ==> forall a types.Address, c types.CoinID :: c != tx.GasCoin ==> bal(accs, a, c) == old(bal(accs, a, c))
+//@   let lateFailure = deliver && (tx.Type == TypeCreateCoin || tx.Type == TypeCreateToken) && nonce(accs, snd) == tx.Nonce
+//@   ensures failednonce: result.Code != 0 ==> (nonce == old(nonce) && otherState == old(otherState)) || lateFailure
+//@   let cc = commissionCoinOf(tx)
+//@   ensures failedbalances: result.Code != 0 ==> select(bal, accs) == store(select(old(bal), accs), cc, select(select(bal, accs), cc)) || lateFailure
+//@   loop 1 invariant frame: nonce == old(nonce) && otherState == old(otherState) && select(bal, accs) == store(select(old(bal), accs), cc, select(select(bal, accs), cc))
+//@   loop 1 invariant payer: bal(accs, cc, intruder) >= balance.val
 //@   ensures chargedonce: deliver && bal != old(bal) ==> nonce(accs, snd) == tx.Nonce
